@@ -305,8 +305,9 @@ def run_dialog(case):
 
 def run_prompt(case):
     from simpleline.input.input_handler import InputHandlerRequest
-    p = Prompt(case["message"])
+    p = Prompt(case["message"]); strs = [str(p)]
     for op in case["ops"]:
+        strs.append(str(p))           # (the prompt is printed between the edits, as a screen that is redrawn does)
         if op[0] == "set":
             if op[3] if len(op) > 3 else False: p.update_option(op[1], op[2])
             else: p.add_option(op[1], op[2])
@@ -323,7 +324,26 @@ def run_prompt(case):
         tp = req.text_prompt()
     except Exception as e:
         tp = {"err": err_name(e)}
-    return {"str": s, "text_prompt": tp}
+    strs.append(s)
+    return {"str": s, "text_prompt": tp, "strs": strs[1:]}
+
+
+def run_rawread(case):
+    """the console read itself (InputHandlerRequest.get_input: prompt, the read, end-of-file as the empty line) on a given content of the standard input"""
+    import io, sys
+    from simpleline.input.input_handler import InputHandlerRequest
+    class _H: source = None
+    old = sys.stdin, sys.stdout
+    # (the session adapter replaces the read by its gate: put the library's own one back for the duration of this case)
+    app = sys.modules.get("harness.impl.app"); seam = InputHandlerRequest.__dict__["_get_input"]
+    if app is not None: InputHandlerRequest._get_input = app.REAL_GET_INPUT
+    sys.stdin = io.StringIO(case["content"]); sys.stdout = io.StringIO()
+    try:
+        out = [InputHandlerRequest(80, Prompt("p"), _H()).get_input() for _ in range(case["n"])]
+    finally:
+        sys.stdin, sys.stdout = old
+        if app is not None: InputHandlerRequest._get_input = seam
+    return {"lines": out}
 
 
 def run_paging(case):
@@ -353,7 +373,7 @@ def run_paging(case):
 
 
 RUN = {"textseq": run_textseq, "text": run_text, "wrap": run_wrap, "int": run_int, "draw": run_draw, "write": run_write,
-       "tree": run_tree, "gridseq": run_gridseq, "keytree": run_keytree, "column": run_column, "dialog": run_dialog, "render_race": run_render_race, "key": run_key, "prompt": run_prompt, "paging": run_paging}
+       "tree": run_tree, "gridseq": run_gridseq, "keytree": run_keytree, "column": run_column, "dialog": run_dialog, "render_race": run_render_race, "key": run_key, "prompt": run_prompt, "paging": run_paging, "rawread": run_rawread}
 
 
 def run_impl(case):
